@@ -67,7 +67,7 @@ INVARIANT AtStop
 CHECK_DEADLOCK FALSE
 """
 
-N_PROGRAMS = 15
+N_PROGRAMS = 20
 BATCH = 600            # Print statements per simulated module
 ASSERT_BATCH = 48      # Assert/Assume statements per simulated module (one simulation run each)
 
@@ -445,6 +445,13 @@ def _expr(e, S):
         return _expr(e["x"], S) == e["k"]
     if op == "bit":
         return _expr(e["x"], S)[e["i"]]
+    if op == "mask":
+        return _expr(e["x"], S) & e["k"]
+    if op == "signed":
+        x = _expr(e["x"], S)
+        if len(x) != e["w"]:
+            raise ValueError("AsSigned width %d on a %d-bit operand" % (e["w"], len(x)))
+        return x.as_signed()
     raise ValueError(op)
 
 
@@ -478,7 +485,7 @@ def _emit(m, stmts, S):
 
 
 class TimingRig:
-    """The fixed design of FmtTiming (inputs a b s, registers cyc r t) around one program of the catalogue."""
+    """The fixed design of FmtTiming (inputs a b s, registers cyc r t q) around one program of the catalogue."""
 
     def __init__(self, prog, edge="pos"):
         from amaranth.hdl import Module, Signal, ClockDomain
@@ -486,11 +493,13 @@ class TimingRig:
         m = Module()
         m.domains.sync = ClockDomain(clk_edge=edge)      # the active edge of the domain: rising or falling
         S = {"a": Signal(name="a"), "b": Signal(name="b"), "s": Signal(2, name="s"),
-             "r": Signal(name="r"), "t": Signal(name="t"), "cyc": Signal(4, name="cyc")}
+             "r": Signal(name="r"), "t": Signal(name="t"), "q": Signal(2, name="q"), "cyc": Signal(4, name="cyc")}
         m.d.sync += S["cyc"].eq(S["cyc"] + 1)
         m.d.sync += S["r"].eq(S["a"])
         with m.If(S["a"]):
             m.d.sync += S["t"].eq(~S["t"])
+        with m.If(S["b"]):
+            m.d.sync += S["q"].eq(S["q"] + 1)
         _emit(m, prog["body"], S)
         self.S = S
         self.ins = []
@@ -558,6 +567,9 @@ def compare_timing(leaf, em, stop, stray):
     got_before = sorted((e, i) for e, i, c in em if sedge is None or e < sedge)
     if any(e != c for e, i, c in em):
         return "a Print shows a counter value different from the edge it was emitted at: %r" % (em,)
+    if stop is not None and (sedge is None or stop[0] < sedge):
+        return ("simulation stopped at edge %d by %s %d although no active assertion has a zero condition there (%s)"
+                % (stop[0], stop[1], stop[2], "no stop expected" if sedge is None else "first expected stop: edge %d" % sedge))
     if got_before != exp_em:
         return "emissions (edge, print id) %r, expected %r" % (got_before, exp_em)
     if sedge is None:
@@ -787,6 +799,8 @@ def run(ctx):
     ctx.assume("specifications that are valid Python but outside Format's supported subset (^ alignment, ',' grouping, 0 or = "
                "with c/s) are expected to be rejected; if accepted, only the text is checked")
     ctx.assume("timing: one clock domain, rising-edge and falling-edge variants; inputs are set by the testbench before each active edge")
+    ctx.assume("timing: conditions of Assert/Assume/If may be 1 to 4 bits wide (register q, input s, s as a signed value, masked "
+               "values): zero iff the whole value is zero. Cover is not modelled (its simulation output is not documented)")
     ctx.assume("timing: sync domain only (the guide warns that combinational Print/Assert may fire on glitches); Prints active "
                "at the very edge at which the simulation stops may or may not be emitted; which of several assertions failing "
                "at the same edge is reported is not specified")
